@@ -46,7 +46,7 @@ I_Bilinear(img, px8, py8) ==
         terms == {<<a, b>> : a \in xw, b \in yw}
         Sum[T \in SUBSET terms] == IF T = {} THEN 0 ELSE LET t == CHOOSE q \in T : TRUE IN
                                       Pix(img, t[1][1], t[2][1]) * t[1][2] * t[2][2] + Sum[T \ {t}]
-    IN Sum[terms] \div 64
+    IN CDiv(Sum[terms], 64)          \* float -> integral channel truncates toward zero (matters for negative signed values)
 
 \* ---------------------------------------------------------------- affine (entries scaled to integers by the caller)
 \* product of matrices given with integer entries scaled by s1 resp. s2; the result is scaled by s1 * s2
